@@ -108,8 +108,25 @@ def joincase(draw):
     return {"lines": draw(st.lists(JLINE, min_size=2, max_size=7)), "row": draw(st.integers(0, 5)), "off": draw(st.integers(0, 4)), "cmds": cmds, "ai": draw(st.booleans())}
 
 
+# line deletions shift the numbered registers 1..9: programs of 8-12 line deletions (so that text reaches registers 8 and 9 and falls off
+# the end), with puts of the high registers in between
+@st.composite
+def shiftcase(draw):
+    cmds = []
+    for i in range(draw(st.integers(8, 12))):
+        cmds.append({"k": "op", "op": "d", "reg": draw(st.sampled_from(["", "", "", "a", "A"])), "c1": draw(st.sampled_from([0, 0, 0, 2])), "c2": 0,
+                     "m": ["same", None], "typed": None})
+        if draw(st.integers(0, 3)) == 0:
+            cmds.append({"k": "put", "key": draw(st.sampled_from("pP")), "reg": draw(st.sampled_from("56789")), "c1": 0})
+        if draw(st.integers(0, 4)) == 0:
+            cmds.append({"k": "move", "m": [draw(st.sampled_from(["j", "k", "G"])), None], "c1": 0})
+    n = draw(st.integers(12, 26))
+    return {"lines": ["%c%d" % (97 + i % 26, i) if i % 5 else "é%d 日" % i for i in range(n)], "row": draw(st.integers(0, 3)), "off": 0,
+            "cmds": cmds, "ai": False}
+
+
 def strategy(tier):
-    return st.one_of(case(), case(), case(), case(), case(), case(), case(), joincase())
+    return st.one_of(case(), case(), case(), case(), case(), case(), case(), joincase(), shiftcase())
 
 
 OPKEY = {"d": "d", "c": "c", "y": "y", "<": "<", ">": ">", "g~": "~", "gu": "u", "gU": "U"}
@@ -223,7 +240,7 @@ def simulate(c, t):
 
 
 _tabs = {}
-DUMPREGS = ["", "a", "b", "c", "1", "2", "3", "4"]
+DUMPREGS = ["", "a", "b", "c", "1", "2", "3", "4", "5", "6", "7", "8", "9"]
 
 
 def run_case(env, c):
